@@ -1,5 +1,6 @@
 import QP.Proofs.C07Induction
 import QP.Proofs.C07Def
+import QP.Proofs.C07DefEnds
 import QP.Proofs.C07Pad
 import QP.Proofs.C07Witness
 /-!
@@ -199,6 +200,36 @@ theorem integral_defined_partial {pt : PT} {σ : Scope} {mm cm} {P : Pulse} {c o
   obtain ⟨r, hr⟩ := h hinj c o hc hcm
   exact ⟨r, hr, integral_correct_partial hs hreg hden hinj hc hcm hkeep hr⟩
 
+/-- `initial_defined` / `final_defined` (all thirteen constructors; `provides` excludes time reversal, which
+implements neither): if every part of the template is played (`positive`) and the path of the closed form runs
+through none of the documented classes, then `pt.initial_values[c]` (`e = .first`) / `pt.final_values[c]`
+(`e = .last`) evaluates, the kept channel is played, and the value is the one the played voltage starts / ends with -/
+theorem ends_defined_partial {e : End} {pt : PT} {σ : Scope} {mm cm} {P : Pulse} {c o : Chan}
+    (hs : supported pt = true) (hreg : regular pt σ = true) (hpos : positive pt σ = true)
+    (hden : denote pt σ mm cm = .ok P)
+    (hinj : InjOn cm pt.definedChannels) (hc : c ∈ pt.definedChannels) (hcm : cm.lookup c = some (some o))
+    (hkeep : keeps pt cm = true) (hprov : provides e pt = true) (hclass : pathTags e pt σ mm cm c = .ok []) :
+    ∃ v, endOf e pt σ c = .ok v ∧ plEnd e (pulseVal P o) = some v := by
+  obtain ⟨D, _, hD0, hDP⟩ := duration_defined_partial hs hreg hpos hden hkeep
+  obtain ⟨_, _, hseg, _⟩ := pulse_well_formed hs hreg hden
+  have hmem : o ∈ P.chanNames := by
+    rcases channel_played hs hreg hden hc hcm hkeep with h | h
+    · exact h
+    · rw [hDP, h] at hD0; exact absurd hD0 (by grind)
+  obtain ⟨pl, hpl⟩ := lookup_isSome_of_mem_keys P.chans o hmem
+  have hdur := (hseg (o, pl) (mem_of_lookup P.chans o pl hpl)).2
+  have hne : pl ≠ [] := by
+    intro h0
+    rw [h0] at hdur
+    simp only [PL.dur] at hdur
+    rw [hDP, ← hdur] at hD0
+    exact absurd hD0 (by simp)
+  have hval : pulseVal P o = pl := by simp [pulseVal, hpl]
+  obtain ⟨w, hw⟩ := plEnd_some_of_ne_nil e hne
+  obtain ⟨v, hv⟩ := endDefClaim e pt hs σ mm cm P hden hreg hpos hkeep hprov hinj c o hc hcm
+  have := (claim pt hs σ mm cm P c o hden hreg hinj hc hcm hkeep).2 e hclass w v (by rw [hval]; exact hw) hv
+  exact ⟨v, hv, by rw [hval, hw, this]⟩
+
 /-- the integral of a loop whose range is empty is 0, for every body (PF-09b repaired; the unrepaired code
 returned the body integral at the start index) -/
 theorem integral_empty_loop (id body idx start stop step meas cons) (σ : Scope) (c : Chan) (a b s : Int)
@@ -305,6 +336,8 @@ example : supported loopWitness = true := by decide
 example : supported emptyPartWitness = true := by decide
 example : supported jumpWitness = true := by decide
 example : positive newKindsWitness (.dict []) = true := by decide
+example : provides .first newKindsWitness = true ∧ provides .last newKindsWitness = true := by decide
+example : positive loopWitness (.dict [("v", 1/2)]) = true := by decide
 
 /-- the five constructors added in round 2 in one tree (`newKindsWitness`): all hypotheses of the `_partial` theorems
 hold, the template denotes a pulse and the closed forms evaluate -- to the values of the pulse -/
